@@ -45,6 +45,12 @@ def coq_stmt(s):
     if op == "guarded": return "SGuarded %d %s" % (s[1], coq_prog(s[2]))
     if op == "ignore": return "SIgnore %s" % ("true" if s[1] else "false")
     if op == "probe": return "SProbe"
+    if op == "pack": return "SPack %d %s %d" % (s[1], coq_schema(s[2]), s[3])
+    if op == "unpack": return "SUnpack %d %s %d" % (s[1], coq_schema(s[2]), s[3])
+    if op == "snark": return "SSnark %d [%s] %s %s" % (s[1], "; ".join(coq_rtree(t) for t in s[2]), coq_prog(s[3]), coq_rtree(s[4]))
+    if op == "arrnew": return "SArrNew %d %s" % (s[1], nl(s[2]))
+    if op == "arrget": return "SArrGet %d %d %s" % (s[1], s[2], nl(s[3]))
+    if op == "arrset": return "SArrSet %d %s %d" % (s[1], nl(s[2]), s[3])
     if op == "bset": return "SBSet %d %d" % (s[1], s[2])
     if op == "bget": return "SBGet %d %d" % (s[1], s[2])
     if op == "breakif": return "SBreakIf %d" % s[1]
@@ -55,6 +61,18 @@ def coq_stmt(s):
     if op == "ofor": return "SOFor %d %s %d %s %s %s" % (s[1], zlit(s[2]), s[3], zlit(s[4]), "true" if s[5] else "false", coq_prog(s[6]))
     if op == "itelazy": return "SIteLazy %d %d %s %d %s %d" % (s[1], s[2], coq_prog(s[3]), s[4], coq_prog(s[5]), s[6])
     raise ValueError(op)
+
+
+def coq_schema(j):
+    if j[0] == "bool": return "KBool"
+    if j[0] == "intmod": return "(KIntMod %d)" % j[1]
+    if j[0] == "list": return "(KList [%s])" % "; ".join(coq_schema(x) for x in j[1])
+    if j[0] == "repeat": return "(KRepeat %s %d%%nat)" % (coq_schema(j[1]), j[2])
+
+
+def coq_rtree(t):
+    if isinstance(t, int): return "(RLeaf %d%%nat)" % t
+    return "(%s [%s])" % ("RList" if t[0] == "list" else "RTuple", "; ".join(coq_rtree(x) for x in t[1]))
 
 
 def coq_prog(p): return "[" + "; ".join(coq_stmt(s) for s in p) + "]"
